@@ -18,6 +18,7 @@ type pkgCase struct {
 	NErr  int               `json:"nerr"`            // number of independent errors injected
 	// sched bookkeeping: symbol name → id
 	Names map[string]int `json:"names,omitempty"`
+	Stats map[string]int `json:"-"`
 }
 
 func (c *pkgCase) fileNames() []string {
@@ -42,8 +43,12 @@ type ssym struct {
 
 func sname(id int) string { return fmt.Sprintf("S%03d", id) }
 
-var xgoNames = []string{"a.xgo", "b_x.xgo", "m.xgo", "q.gop", "z.xgo", "c1.xgo"}
-var goNames = []string{"b.go", "g1.go", "k.go", "zz.go", "aa.go"}
+// File-name pools.  They contain on purpose: the same stem with different extensions (a.xgo / a.gop /
+// a.go, Rect.xgo / Rect.gox / Rect.go), names differing in case only (a.xgo / A.xgo), names that sort
+// differently with and without their extension (ab.xgo / ab-c.xgo: '-' < '.'), and _test variants.
+var schedXgoNames = []string{"a.xgo", "a.gop", "A.xgo", "ab.xgo", "ab-c.xgo", "b_x.xgo", "m.xgo", "q.gop", "z.xgo", "c1.xgo"}
+var xgoNames = append([]string{"m_test.xgo", "Rect.xgo", "Circle.gop", "a_test.gop"}, schedXgoNames...)
+var goNames = []string{"b.go", "g1.go", "k.go", "zz.go", "aa.go", "a.go", "ab.go", "Rect.go", "m.go"}
 
 func pickFiles(r *vh.Rand, pool []string, n int) []string {
 	idx := perm(r, len(pool))
@@ -58,7 +63,7 @@ func pickFiles(r *vh.Rand, pool []string, n int) []string {
 func genSched(r *vh.Rand, id int) *pkgCase {
 	nx := 1 + r.Intn(3)
 	ng := r.Intn(3)
-	xfiles := pickFiles(r, xgoNames, nx)
+	xfiles := pickFiles(r, schedXgoNames, nx)
 	gfiles := pickFiles(r, goNames, ng)
 	n := 4 + r.Intn(9)
 	syms := make([]*ssym, n)
@@ -270,6 +275,9 @@ type richGen struct {
 	gtypes []string // Go-file struct types
 	funcs  []string // func(int) int, any file
 	arrs   []string
+	vars   []string    // package-level V%d
+	meths  [][2]string // (type, method) with signature func(a int) int for XGo types, func() int for Go types
+	stats  map[string]int
 	nerr   int
 }
 
@@ -310,7 +318,7 @@ func (g *richGen) intExpr(arg string) string {
 }
 
 func genRich(r *vh.Rand, id int, withErr bool) *pkgCase {
-	g := &richGen{r: r, files: map[string]*strings.Builder{}}
+	g := &richGen{r: r, files: map[string]*strings.Builder{}, stats: map[string]int{}}
 	nx := 1 + r.Intn(3)
 	ng := r.Intn(3)
 	nc := r.Intn(3)
@@ -347,6 +355,10 @@ func genRich(r *vh.Rand, id int, withErr bool) *pkgCase {
 		if r.Chance(50) {
 			g.w(f, "import \"fmt\"\n\n")
 			usesFmt[f] = true
+			if withErr && r.Chance(30) { // the import name declared twice in one file
+				g.w(f, "import fmt \"strings\"\n\n")
+				g.nerr++
+			}
 		}
 	}
 	// consts
@@ -429,6 +441,7 @@ func genRich(r *vh.Rand, id int, withErr bool) *pkgCase {
 	// package vars with initialisers
 	for i, n := 0, r.Intn(4); i < n; i++ {
 		f := xOrG()
+		g.vars = append(g.vars, fmt.Sprintf("V%d", i))
 		if isGo(f) {
 			g.w(f, "var V%d = %d\n\n", i, i)
 		} else if r.Bool() {
@@ -442,6 +455,7 @@ func genRich(r *vh.Rand, id int, withErr bool) *pkgCase {
 		if !r.Chance(60) {
 			continue
 		}
+		g.meths = append(g.meths, [2]string{name, fmt.Sprintf("M%d", i)})
 		if strings.HasPrefix(name, "G") {
 			g.w(typeFile[name], "func (p *%s) M%d() int {\n\treturn p.A\n}\n\n", name, i)
 		} else {
@@ -525,38 +539,74 @@ func genRich(r *vh.Rand, id int, withErr bool) *pkgCase {
 			g.w("Cat.t2spx", "func meow() int {\n\treturn %s\n}\n\n", g.intExpr("4"))
 		}
 	}
-	// independent errors in different files / symbols
+	// independent errors in different files / symbols: undefined names, a type mismatch and EVERY kind
+	// of redeclaration (type / const / var / func / method / cross-kind), in the declaring file itself
+	// or in another XGo / Go / class file
 	if withErr {
 		all := append(append([]string{}, srcFiles...), g.cfiles...)
-		k := 2 + r.Intn(3)
+		k := 3 + r.Intn(3)
 		for i := 0; i < k; i++ {
 			f := all[r.Intn(len(all))]
-			switch {
-			case isGo(f):
-				switch r.Intn(3) {
-				case 0:
+			if r.Chance(30) { // redeclare in the very file of an earlier error: two errors in one file
+				f = all[0]
+			}
+			kind := r.Intn(12)
+			switch kind {
+			case 0:
+				if isGo(f) {
 					g.w(f, "type GE%d struct {\n\tx UndefT%d\n}\n\n", i, i)
-				case 1:
-					g.w(f, "func %s(a int) int {\n\treturn 0\n}\n\n", g.any(g.funcs)) // duplicate declaration
-				default:
-					g.w(f, "func Ov%d__0(a UndefP%d) {\n}\n\n", i, i)
-				}
-			default:
-				switch r.Intn(4) {
-				case 0:
+				} else {
 					g.w(f, "func E%d() int {\n\treturn undefV%d\n}\n\n", i, i)
-				case 1:
+				}
+			case 1:
+				if isGo(f) {
+					g.w(f, "func Ov%d__0(a UndefP%d) {\n}\n\n", i, i)
+				} else {
 					g.w(f, "var VE%d int = \"str%d\"\n\n", i, i)
-				case 2:
+				}
+			case 2, 3: // function redeclared
+				g.w(f, "func %s(a int) int {\n\treturn %d\n}\n\n", g.any(g.funcs), i)
+			case 4, 5: // type redeclared
+				g.w(f, "type %s struct {\n\tDup%d int\n}\n\n", g.any(allTypes), i)
+			case 6: // constant redeclared
+				g.w(f, "const %s = %d\n\n", g.any(g.consts), 90+i)
+			case 7: // variable redeclared
+				if vs := append(append([]string{}, g.vars...), g.arrs...); len(vs) > 0 {
+					g.w(f, "var %s int\n\n", vs[r.Intn(len(vs))])
+				} else {
+					g.w(f, "var %s int\n\n", g.any(g.consts)) // a variable named like a constant
+				}
+			case 8: // method redeclared (in a file of the right kind)
+				if len(g.meths) > 0 {
+					m := g.meths[r.Intn(len(g.meths))]
+					if strings.HasPrefix(m[0], "G") {
+						g.w(typeFile[m[0]], "func (p *%s) %s() int {\n\treturn %d\n}\n\n", m[0], m[1], i)
+					} else {
+						g.w(g.xfiles[r.Intn(nx)], "func (p *%s) %s(a int) int {\n\treturn %d\n}\n\n", m[0], m[1], i)
+					}
+				} else {
+					g.w(f, "type %s struct {\n\tDup%d int\n}\n\n", g.any(allTypes), i)
+				}
+			case 9: // cross-kind: a function named like a type, a variable named like a function
+				if r.Bool() {
+					g.w(f, "func %s() {\n}\n\n", g.any(allTypes))
+				} else {
+					g.w(f, "var %s = %d\n\n", g.any(g.funcs), i)
+				}
+			case 10: // the same new name twice in one file
+				g.w(f, "type DD%d struct {\n\tA int\n}\n\ntype DD%d struct {\n\tB int\n}\n\n", i, i)
+			default:
+				if isGo(f) {
+					g.w(f, "type GX%d struct {\n\tx *UndefQ%d\n}\n\n", i, i)
+				} else {
 					g.w(f, "type TE%d struct {\n\tx UndefX%d\n}\n\n", i, i)
-				default:
-					g.w(f, "func %s(a int) int {\n\treturn 1\n}\n\n", g.any(g.funcs)) // duplicate declaration
 				}
 			}
+			g.stats[fmt.Sprintf("errkind_%02d", kind)]++
 			g.nerr++
 		}
 	}
-	c := &pkgCase{ID: id, Kind: "rich", Files: map[string]string{}, NErr: g.nerr}
+	c := &pkgCase{ID: id, Kind: "rich", Files: map[string]string{}, NErr: g.nerr, Stats: g.stats}
 	for f, b := range g.files {
 		c.Files[f] = b.String()
 	}
